@@ -6,21 +6,20 @@ HARNESSES = [dict(name="ha", pkg="./pkg/ha/", test="TestVerifC11", timeout=900,
                   files=[("pkg/ha/zz_verif_c11_test.go", "harness/C11/zz_verif_c11_test.go"),
                          ("pkg/allocator/zz_verif_c11_alloc.go", "harness/C11/zz_verif_c11_alloc.go")])]
 # repaired first (the theorems are proved for it); one variant per recorded defect; defective = all of them together
-# repaired first; d_head = /repo HEAD since 43d3a11 (Model.head: no sequence comparison in the receiver + bulk sync always
-# from the backlog window); d_stale = what remains once fixes/C11_bulk_snapshot_when_behind.patch is applied;
-# defective = the code before all C11 fixes
-VARIANTS = ["repaired", "d_stale", "d_head", "defective"]
-# known-finding signatures = input class of the case (the generator mode is part of the case text)
-SIG = {"huge": "backlog-range-seq-ge-2^63", "stale": "stale-redelivery-applied",
-       "drop": "update-drops-address-stays-reserved", "bulk": "bulk-replay-turns-delete-into-store",
-       "relall": "release-by-address-ignores-pool", "freshwrap": "bulk-sync-misses-sessions-older-than-backlog"}
+# repaired = /repo HEAD for everything that is fixed + dropping of messages not above lastSeq (the theorems
+# C11_converges / C11_pools_exact are proved for it); d_stale = Model.head = /repo HEAD exactly: the receiver never
+# compares sequence numbers (the only finding still open).  Variants for fixed findings are gone: a regression to
+# any of them is reported as a VIOLATION.
+VARIANTS = ["repaired", "d_stale"]
+# known-finding signature (only one left)
+SIG = {"stale": "stale-redelivery-applied"}
 RULE = ("rng: ring capacities {1..9, 16, 0 and -1 (=10000)} x pushed runs of consecutive uint64 sequence numbers (fresh, wrapped "
         "1..3 times, starting at 1 / large / just below 2^63), queried with every (from,to) in a window around the retained "
         "range plus empty, inverted, far-away and (class 'huge') >= 2^63 bounds; every answer is held by the caller and read again after each of cap+1 further pushes. "
         "hist: a registry with 2-3 IPv4, 2 IANA and 2 PD pools; 12-45 operations over 7 sessions (IPoE/PPPoE/L2GW, optional "
         "v4/IANA/PD/pool names/VRF/relay info/user, unknown and empty SRG, unparseable prefix, out-of-pool address) with "
         "in-order deliveries lagging behind the events, deliveries whose store write fails followed by their retransmission, duplicates and range replays ending at the newest delivered message "
-        "(mode clean; mode fresh: SRG 2 is delivered nothing until a bulk sync at the end that runs on a full ring while the active node handles 1-3 more events after every page), plus one trigger class per case: stale redelivery (mode stale), redelivery of a message that is still the newest delivered one of its session with address changes (mode latest: store and pools must converge on HEAD, only lastSeq may differ), address change/drop by an update (mode "
+        "(mode clean; mode fresh: SRG 2 is delivered nothing until a bulk sync at the end that runs on a full ring while the active node handles 1-3 more events after every page), plus one input class per case (each was the trigger of a finding; all but 'stale' are fixed in /repo and must now match the repaired model): stale redelivery (mode stale), redelivery of a message that is still the newest delivered one of its session with address changes (mode latest: store and pools must converge on HEAD, only lastSeq may differ), address change/drop by an update (mode "
         "drop), bulk replay with deletes in the window (mode bulk), same address in two named pools (mode relall).  Every "
         "history ends with all messages delivered.  Non-trivial: rng case with at least one non-empty answer and one empty; "
         "hist case whose final store is non-empty and at least one session was released.  Distinct: by case text.")
@@ -463,21 +462,16 @@ def _triggers(case):
 
 
 def signature(case, impl, models):
-    """Known-finding signature = input class, and only when the history really contains that finding's trigger."""
+    """Only stale-redelivery-applied is still open: the case must be of an input class that redelivers old messages
+    (modes stale, latest) and must really contain such a redelivery."""
     mode = case.split()[1]
-    if case.startswith("hist"):
-        trig = _triggers(case)
-        if mode == "stale":
-            return SIG["stale"] if "stale" in trig else None
-        if mode == "freshwrap":
-            return SIG["freshwrap"] if "window" in trig else None
-        if mode == "latest":
-            # a message is delivered again only while it is the newest delivered one of its session: HEAD's lastSeq
-            # goes backwards (the recorded finding) but store and pools must be right (C11_converges_head,
-            # C11_pools_exact_head) — anything else is a violation
-            ok = _flags(impl) == ("ok", "ok")
-            return SIG["stale"] if ok and "stale" in trig else None
-    return SIG.get(mode)
+    if not case.startswith("hist") or mode not in ("stale", "latest") or "stale" not in _triggers(case):
+        return None
+    if mode == "latest":
+        # a message is delivered again only while it is the newest delivered one of its session: HEAD's lastSeq goes
+        # backwards (the finding) but store and pools must be right (C11_converges_head, C11_pools_exact_head)
+        return SIG["stale"] if _flags(impl) == ("ok", "ok") else None
+    return SIG["stale"]
 
 
 def shrink(case):
